@@ -6,6 +6,8 @@
 (* projection (not of ASTNode.__eq__ / to_tree).                           *)
 (*   Idempotent : tree2 = tree1, text2 = text1, treeC = tree1, and neither *)
 (*                Print nor the second Parse fails.                        *)
+(*   HistoryFree: the print does not depend on the call history (which    *)
+(*                dialects were used earlier in the interpreter).          *)
 (***************************************************************************)
 EXTENDS Naturals, Sequences, FiniteSets, TLC, Json, IOUtils
 Traces == JsonDeserialize(IOEnv.VERIF_TRACES)
@@ -27,7 +29,10 @@ Print2 == Is("print2") /\ tree2 # "" /\ text2' = Ev.d /\ Adv /\ UNCHANGED <<tree
 Copy == Is("copy") /\ tree1 # "" /\ treeC' = Ev.d /\ Adv /\ UNCHANGED <<tree1, text1, tree2, text2>>
         /\ flags' = flags \cup (IF Ev.ok = 0 THEN {"CopyRaises"} ELSE IF Ev.d # tree1 THEN {"CopyDiffers"} ELSE {})
         \cup (IF Ev.ok = 1 /\ Ev.t # text1 /\ text1 # "" THEN {"CopyPrintsDifferently"} ELSE {})
-Step == ~done /\ (Parse1 \/ Print1 \/ Parse2 \/ Print2 \/ Copy)
+\* the record of a pipeline run in another call history carries the print of the baseline history
+Hist == Is("hist") /\ tree1 # "" /\ Adv /\ UNCHANGED <<tree1, text1, tree2, text2, treeC>>
+        /\ flags' = flags \cup (IF Ev.d # text1 THEN {"PrintDependsOnHistory"} ELSE {})
+Step == ~done /\ (Parse1 \/ Print1 \/ Parse2 \/ Print2 \/ Copy \/ Hist)
 Finish == /\ ~done /\ l = Len(Tr.events) + 1 /\ done' = TRUE /\ PrintT(<<"ACC", tid, flags>>)
           /\ UNCHANGED <<tid, l, tree1, text1, tree2, text2, treeC, flags>>
 Spec == Init /\ [][Step \/ Finish]_vars
